@@ -658,6 +658,154 @@ def split_conditional_assignments(fn: ast.FunctionDef) -> bool:
     return changed
 
 
+def _simplify_identity_tests(stmts: List[ast.stmt]) -> List[ast.stmt]:
+    """Prune `if <lambda> is None`, `if None is None`, `if not <lambda>` ... whose outcome is fixed by the syntax."""
+
+    def truth(t: ast.AST) -> Optional[bool]:
+        if isinstance(t, ast.UnaryOp) and isinstance(t.op, ast.Not):
+            v = truth(t.operand)
+            return None if v is None else not v
+        if isinstance(t, ast.Lambda):
+            return True
+        if isinstance(t, ast.Constant) and t.value is None:
+            return False
+        if isinstance(t, ast.Compare) and len(t.ops) == 1 and isinstance(t.ops[0], (ast.Is, ast.IsNot)):
+            a, b = t.left, t.comparators[0]
+            kinds = []
+            for x in (a, b):
+                kinds.append("none" if isinstance(x, ast.Constant) and x.value is None else "obj" if isinstance(x, ast.Lambda) else None)
+            if None in kinds or kinds == ["obj", "obj"]:
+                return None
+            same = kinds[0] == kinds[1]
+            return same if isinstance(t.ops[0], ast.Is) else not same
+        return None
+
+    out: List[ast.stmt] = []
+    for st in stmts:
+        if isinstance(st, ast.If):
+            v = truth(st.test)
+            if v is True:
+                out.extend(_simplify_identity_tests(st.body))
+                continue
+            if v is False:
+                out.extend(_simplify_identity_tests(st.orelse))
+                continue
+            st.body = _simplify_identity_tests(st.body) or [ast.Pass()]
+            st.orelse = _simplify_identity_tests(st.orelse)
+        out.append(st)
+        if isinstance(st, (ast.Return, ast.Raise)):
+            break
+    return out
+
+
+def split_dict_dispatch(fn: ast.FunctionDef) -> bool:
+    """`v = {k1: e1, k2: e2}.get(x)` followed by REST  ->  `if x == k1: REST[v:=e1] elif x == k2: REST[v:=e2] else:
+    REST[v:=None]` when v is bound only there, the keys are constants, x and the values are side-effect free and REST
+    does not re-bind x.  (`{...}[x]` raises KeyError(x) in the else branch.)  The if-chain tests the keys in the
+    table's order; since the keys are distinct constants the order does not matter."""
+    changed = False
+    binds: Dict[str, int] = {}
+    for n in ast.walk(fn):
+        if isinstance(n, ast.Name) and isinstance(n.ctx, (ast.Store, ast.Del)):
+            binds[n.id] = binds.get(n.id, 0) + 1
+
+    def match(st: ast.stmt):
+        if isinstance(st, ast.Assign) and len(st.targets) == 1 and isinstance(st.targets[0], ast.Name):
+            tg, v = st.targets[0].id, st.value
+        elif isinstance(st, ast.AnnAssign) and isinstance(st.target, ast.Name) and st.value is not None:
+            tg, v = st.target.id, st.value
+        else:
+            return None
+        if binds.get(tg) != 1:
+            return None
+        table, key, dflt, strict = None, None, ast.Constant(value=None), False
+        if isinstance(v, ast.Call) and isinstance(v.func, ast.Attribute) and v.func.attr == "get" and isinstance(v.func.value, ast.Dict) and 1 <= len(v.args) <= 2 and not v.keywords:
+            table, key = v.func.value, v.args[0]
+            if len(v.args) == 2:
+                dflt = v.args[1]
+        elif isinstance(v, ast.Subscript) and isinstance(v.value, ast.Dict) and not isinstance(v.slice, ast.Slice):
+            table, key, strict = v.value, v.slice, True
+        if table is None or not table.keys or len(table.keys) > 12:
+            return None
+        if not all(isinstance(k, ast.Constant) for k in table.keys) or len({repr(k.value) for k in table.keys}) != len(table.keys):
+            return None
+        if not _pure_arg(key) or not all(_pure_arg(e) for e in table.values) or not _pure_arg(dflt):
+            return None
+        if not any(isinstance(e, ast.Lambda) for e in table.values):
+            return None  # plain data tables are folded as they are
+        return tg, table, key, dflt, strict
+
+    def block(stmts: List[ast.stmt]) -> List[ast.stmt]:
+        nonlocal changed
+        for i, st in enumerate(stmts):
+            m = match(st)
+            if m is not None:
+                tg, table, key, dflt, strict = m
+                rest = stmts[i + 1 :]
+                key_names = {n.id for n in ast.walk(key) if isinstance(n, ast.Name)}
+                if key_names & _stores(ast.Module(body=rest, type_ignores=[])):
+                    continue
+                arms = []
+                for k, e in zip(table.keys, table.values):
+                    body = [_SubstMany({tg: e}).visit(clone(x)) for x in rest]
+                    arms.append((ast.Compare(left=clone(key), ops=[ast.Eq()], comparators=[clone(k)]), _simplify_identity_tests(body) or [ast.Pass()]))
+                if strict:
+                    last = [ast.Raise(exc=ast.Call(func=ast.Name(id="KeyError", ctx=ast.Load()), args=[clone(key)], keywords=[]), cause=None)]
+                else:
+                    last = _simplify_identity_tests([_SubstMany({tg: dflt}).visit(clone(x)) for x in rest]) or [ast.Pass()]
+                node: List[ast.stmt] = last
+                for test, body in reversed(arms):
+                    node = [ast.copy_location(ast.If(test=test, body=body, orelse=node), st)]
+                changed = True
+                return stmts[:i] + block(node)
+            for fld in ("body", "orelse", "finalbody"):
+                sub = getattr(st, fld, None)
+                if isinstance(sub, list) and sub and isinstance(sub[0], ast.stmt) and not isinstance(st, (ast.FunctionDef, ast.ClassDef)):
+                    setattr(st, fld, block(sub))
+        return stmts
+
+    fn.body = block(fn.body)
+    return changed
+
+
+def split_alias_choice(fn: ast.FunctionDef) -> bool:
+    """`v = A if C else B` (A, B plain names: v is an alias of one of two objects) followed by REST  ->
+    `if C: REST[v:=A] else: REST[v:=B]` when v is bound only there and REST re-binds none of v, A, B and no name of C."""
+    changed = False
+    binds: Dict[str, int] = {}
+    for n in ast.walk(fn):
+        if isinstance(n, ast.Name) and isinstance(n.ctx, (ast.Store, ast.Del)):
+            binds[n.id] = binds.get(n.id, 0) + 1
+
+    def pure_test(t: ast.AST) -> bool:
+        return all(isinstance(x, (ast.Compare, ast.Name, ast.Attribute, ast.Constant, ast.UnaryOp, ast.BoolOp, ast.Load, ast.cmpop, ast.unaryop, ast.boolop, ast.expr_context)) for x in ast.walk(t))
+
+    def block(stmts: List[ast.stmt]) -> List[ast.stmt]:
+        nonlocal changed
+        for i, st in enumerate(stmts):
+            tg = v = None
+            if isinstance(st, ast.Assign) and len(st.targets) == 1 and isinstance(st.targets[0], ast.Name):
+                tg, v = st.targets[0].id, st.value
+            elif isinstance(st, ast.AnnAssign) and isinstance(st.target, ast.Name) and st.value is not None:
+                tg, v = st.target.id, st.value
+            if tg and binds.get(tg) == 1 and isinstance(v, ast.IfExp) and isinstance(v.body, ast.Name) and isinstance(v.orelse, ast.Name) and pure_test(v.test):
+                rest = stmts[i + 1 :]
+                frozen = {tg, v.body.id, v.orelse.id} | {n.id for n in ast.walk(v.test) if isinstance(n, ast.Name)}
+                if rest and not (frozen & _stores(ast.Module(body=rest, type_ignores=[]))):
+                    a = [_SubstMany({tg: v.body}).visit(clone(x)) for x in rest]
+                    b = [_SubstMany({tg: v.orelse}).visit(clone(x)) for x in rest]
+                    changed = True
+                    return stmts[:i] + [ast.copy_location(ast.If(test=clone(v.test), body=block(a), orelse=block(b)), st)]
+            for fld in ("body", "orelse", "finalbody"):
+                sub = getattr(st, fld, None)
+                if isinstance(sub, list) and sub and isinstance(sub[0], ast.stmt) and not isinstance(st, (ast.FunctionDef, ast.ClassDef)):
+                    setattr(st, fld, block(sub))
+        return stmts
+
+    fn.body = block(fn.body)
+    return changed
+
+
 def normalised(ctx: Ctx, f: Func, steps: str = "delegation,tailcalls,calls,unroll,quant,beta,getattr,temps,predicate") -> Func:
     """A synthetic Func whose body is `f`'s body after the listed rewrites (cached per ctx)."""
     cache = ctx.__dict__.setdefault("_normalised", {})
@@ -678,6 +826,10 @@ def normalised(ctx: Ctx, f: Func, steps: str = "delegation,tailcalls,calls,unrol
         if "unroll" in want:
             mconsts = {k: v[0] for k, v in f.module.consts.items() if len(v) == 1 and isinstance(v[0], (ast.Tuple, ast.List))}
             round_changed |= unroll_literal_loops(fn, mconsts)
+        if "dispatch" in want:
+            round_changed |= split_dict_dispatch(fn)
+        if "aliasif" in want:
+            round_changed |= split_alias_choice(fn)
         if "quant" in want:
             round_changed |= expand_quantifiers(fn)
         if "beta" in want:
